@@ -111,6 +111,9 @@ structure World where
   setMode : List Nat := []
   /-- values of the watchable Parameter attributes, keyed by (parameter, slot) -/
   slotVals : List ((Nat × Nat) × Int) := []
+  /-- (parameter, slot) pairs for which a watcher has ever been registered: the keys of the
+  Parameter's `watchers` dict, which survive `unwatch` (the list just becomes empty) -/
+  slotKeys : List (Nat × Nat) := []
   ncalls : Nat := 0            -- number of callback invocations so far (ghost)
   deriving Repr
 
@@ -276,7 +279,9 @@ def run (c : Cfg) : Nat → Call → World → Res × World × List Item
         [.stmt "discard" 0 0 0 w.batch w.trigger [] o1 r1])
     | .stmt (.watch wt) =>
       if wt.params.all (fun p => decide (p < c.nparams)) then
-        (.ok, { w with regs := w.regs ++ [wt] }, [.stmt "watch" wt.id 0 0 w.batch w.trigger [] [] .ok])
+        (.ok, { w with regs := w.regs ++ [wt],
+                       slotKeys := if wt.what = 0 then w.slotKeys else w.slotKeys ++ wt.params.map (fun p => (p, wt.what)) },
+          [.stmt "watch" wt.id 0 0 w.batch w.trigger [] [] .ok])
       else (.raised .value, w, [.stmt "watch" wt.id 0 0 w.batch w.trigger [] [] (.raised .value)])
     | .stmt (.unwatch wid) =>
       (.ok, { w with regs := w.regs.filter (fun x => x.id ≠ wid) },
@@ -325,7 +330,9 @@ def run (c : Cfg) : Nat → Call → World → Res × World × List Item
       let old := getSlot w p k
       let w1 := { w with slotVals := setSlotVal w.slotVals p k v }
       let ws := regsForSlot w p k
-      if ws.isEmpty then (.ok, w1, [])
+      -- `has_watcher = attribute in self.watchers`: the dict key exists once a watcher was registered,
+      -- also after it was removed again - then nothing is invoked but the flush still happens
+      if !w.slotKeys.contains (p, k) then (.ok, w1, [])
       else
         let (r1, w2, o1) := run c f (.dispatch ws { name := p, old := old, new := v, what := k }) w1
         match r1 with
